@@ -162,13 +162,18 @@ func (r *Recorder) PerOp() { r.Stats.PerOp = true }
 
 // Quiet records a line without counting it as an operation (state dumps).
 func (r *Recorder) Quiet(op, out string) {
-	if strings.HasPrefix(op, "mon ") && out != "ok" {
+	if strings.HasPrefix(op, "mon ") && out != "ok" && (Focus == "" || strings.HasPrefix(op, "mon "+Focus) || strings.HasPrefix(op, "mon HANG")) {
+		// (only monitors of the property this run is about: a run for C01 must not stop early because monitors of
+		// C04 or C05, which its check ignores, have failed)
 		badMonitors++
 	}
 	fmt.Fprintf(r.w, "%s | %s\n", op, out)
 }
 
 var badMonitors int
+
+// Focus is the property id the harness was started for ("" = none)
+var Focus string
 
 // Enough reports whether this run has already written so many failing monitor lines (each of them a reported
 // violation) that generating further cases only costs time: on a broken tree every failing case of a concurrent
